@@ -1,8 +1,10 @@
 /- Line-protocol driver: does a generated (metamodel-valid) value have a typed reading in the sense of
-   Core/Rep.lean, i.e. does it meet the hypothesis of T1/T2?  Input lines `ROOT JSON`.
+   Core/Rep.lean, i.e. does it meet the hypothesis of T1/T2 — and, evaluated on it, the conclusion of T2
+   (Core/Norm.lean)?  Input lines `ROOT JSON`.
    The reading tried is the one `structTy` itself produces. -/
 import LspVerif.Driver.Conv
 import LspVerif.Core.Rep
+import LspVerif.Core.Norm
 namespace LspVerif.Driver
 open LspVerif
 
@@ -16,7 +18,12 @@ def repStep (E : Env) (bad : List PyTy) (line : String) : String :=
       let j := ofLeanJson lj
       (match structTy E fuel t j with
        | .ok v =>
-         if rep E bad fuel t v j then "rep:true"
+         if rep E bad fuel t v j then
+           -- the conclusion of T2 evaluated on this value: the model's output is related to the input by
+           -- the null rule and is read by the same typed value (the correspondence checks model output = real output)
+           (match unstruct E fuel (some t) v with
+            | .ok o => "rep:true nrel:" ++ toString (nrel E fuel t j o) ++ " outrep:" ++ toString (rep E bad fuel t v o)
+            | .error _ => "rep:true unstruct-err")
          else if rep E [] fuel t v j then "rep:excluded"
          else "rep:false"
        | .error e => if isUnspec e then "unspecified" else "struct-err")
